@@ -34,6 +34,7 @@ CHECKS.update({
  "C08": ("5.8", "Fault-free synchronous simulations (all honest, latency <= delta << T, exact timers) in which the tape permutes and duplicates the deliveries of every round and delays one node's Reset by up to 1.5 T so that next-height traffic is cached: every validator decides every height in view 0 on the same block and nobody broadcasts a change-view or recovery request (block index 1 of a ledger starting at 0 is outside the precondition, see DESIGN O1)."),
  "C09": ("5.9", "Bounded liveness in GST simulations: <=F validators silent from the start (incl. the first primaries), arbitrary cut sets/instants/durations, amnesia restarts at arbitrary points (between calls, inside Broadcast, inside ProcessBlock); after faults stop every live validator must advance 3 heights within 400 T; with silence from the start on a synchronous network the deciding view is <= the number of silent validators. One protocol-level known finding (L1)."),
  "C15": ("5.15", "Every proposal of an honest-code primary is compared with an expectation recomputed from the clock reading and pool content the library obtained in that very call, under clock skew, backward/forward clock steps, unaligned clocks and increments 1, 7, 1000, 1e6, 7e6, 1e9, 999999937 ns; the primary's own block must carry the same values."),
+ "C16": ("5.16", "Fault-free synchronous simulations with the maximum-block-time extension at ratios 1, 1.5, 2, 3, 8 (and off), N=1..7, transaction arrival processes (never / before the minimum / inside the extended wait / bursts) re-armed at every decided height: proposal spacing judged on simulated send instants (tolerance 4*delta), prompt proposal inside the OnNewTransaction call, no change-view/recovery request from a node whose pool is empty, no subscription without the extension."),
 })
 PLANNED = {}
 NOT_APPLICABLE = {
